@@ -168,3 +168,44 @@ func MakeChanOf(v ssa.Value) *ssa.MakeChan {
 	}
 	return nil
 }
+
+// RecvSites counts the receive sites (plain receives and receive cases of
+// selects) on the channel `is` recognises, in fn, its anonymous functions and
+// the private helpers the channel is handed to (there: on the parameter).
+func RecvSites(fn *ssa.Function, is func(ssa.Value) bool, depth int) int {
+	n := 0
+	for _, f := range WithAnon(fn) {
+		for _, op := range ChanOps(f) {
+			if op.Kind == OpSelect {
+				for _, st := range op.Select.States {
+					if st.Dir == types.RecvOnly && is(st.Chan) {
+						n++
+					}
+				}
+			}
+			if op.Kind == OpRecv && is(op.Chan) {
+				n++
+			}
+		}
+		if depth >= 3 {
+			continue
+		}
+		Instrs(f, func(in ssa.Instruction) {
+			ci, ok := in.(ssa.CallInstruction)
+			if !ok {
+				return
+			}
+			g := StaticCallee(ci.Common())
+			if !PrivateHelper(g) || len(g.Params) != len(ci.Common().Args) {
+				return
+			}
+			for i, a := range ci.Common().Args {
+				if is(a) {
+					par := g.Params[i]
+					n += RecvSites(g, func(v ssa.Value) bool { return Unwrap(v) == ssa.Value(par) }, depth+1)
+				}
+			}
+		})
+	}
+	return n
+}
